@@ -32,6 +32,9 @@ let parse_op tok =
   | 't' -> DClock (parse_ts (String.sub tok 2 (String.length tok - 2)))
   | 's' | 'c' -> let i = String.index tok ':' in DOp (parse_hop (String.sub tok (i + 1) (String.length tok - i - 1)))
   | 'h' -> let i = String.index tok ':' in DHold (parse_hop (String.sub tok (i + 1) (String.length tok - i - 1)))
+  | 'x' -> (match String.split_on_char ':' tok with
+            | [_; t; h] -> DClockThen (parse_ts t, parse_hop h)
+            | _ -> failwith "op x")
   | 'r' -> DRelease
   | _ -> failwith "op"
 
